@@ -6,7 +6,7 @@ import AITB.Props.C03Anytime
 import AITB.Props.C03Cons
 import AITB.Props.C03Horizon
 
-namespace AITB.POMDP
+namespace AITB.POMDP3
 open AITB.MDP
 
 /-- `Valid` is inhabited -/
@@ -49,4 +49,4 @@ example : upperRefV mW (-2) 3 2 #[1, 0] = -2 ∧ lowerRefV mW (fun _ => -2) 3 2 
 example : upperRefV mW 0 0 1 #[1/2, 1/2] = -1 ∧ upperRefV mW 0 0 3 #[1/2, 1/2] = -7/4 ∧
     lowerRefV mW (fun _ => -4) 0 1 #[1/2, 1/2] = -3 ∧ lowerRefV mW (fun _ => -4) 0 3 #[1/2, 1/2] = -9/4 := by decide +kernel
 
-end AITB.POMDP
+end AITB.POMDP3
